@@ -129,7 +129,7 @@ impl Property for C05 {
         vec![
             "E1 switches only at join boundaries; leaf jobs of sibling subtrees never overlap and nothing is preempted inside a leaf (covered by the E2 Miri cross-check in the thorough tier)".into(),
             "all nondeterminism reaches the library through rayon-core, Tensor::random's clock read and the HashMap hasher; a new direct use of std::thread / SystemTime / std HashMap would bypass the seams (the exact-repetition execution would still flag run-to-run differences)".into(),
-            "networks are small (<= 5 layers, <= 120 elements per activation)".into(),
+            "networks are small (<= 5 layers, <= 200 elements per activation, batches <= 48), except for the scale stratum (about one case in seventy: up to 400 samples, batches above 127, layers up to 130 wide)".into(),
         ]
     }
 
@@ -234,7 +234,12 @@ impl Property for C05 {
         }
         match r0 {
             Ok(_) => Outcome::Pass,
-            Err(e) => Outcome::Degenerate(format!("reference panics: {}", panic_class(&e))),
+            Err(e) => {
+                if std::env::var("VERIF_DEBUG_PANIC_LOCATION").is_ok() {
+                    eprintln!("PANIC-LOCATION {}", e.lines().last().unwrap_or(""));
+                }
+                Outcome::Degenerate(format!("reference panics: {}", panic_class(&e)))
+            }
         }
     }
 
